@@ -631,8 +631,12 @@ class FixedKeyDictNode(MappingNode, SequenceNode[Dict[LeafNode, KeyValuePairNode
         else:
             return Replace(self, node)
 
+    def copy_from(self: T, children: Iterable[KeyValuePairNode]) -> T:
+        return self.__class__({kvp.key: kvp for kvp in children})
+
     def items(self) -> Iterator[Tuple[LeafNode, TreeNode]]:
-        yield from iter(self._children.items())
+        for key, kvp in self._children.items():
+            yield key, kvp.value
 
     def editable_dict(self) -> Dict[str, Any]:
         ret = dict(self.__dict__)
